@@ -178,4 +178,6 @@ def check(model: Model, tier: str):
         obs += e5ob.for_property(model, "C02", tier)
     except ImportError:
         pass
+    from ..dtypekind import rule_narrow
+    obs += rule_narrow(model, [model.func(a) for a in ['_decomposition.round_tt', '_tt_base.TT.round']])
     return obs, {"functions": ANCHORS}
